@@ -37,7 +37,10 @@ def _is_preamble(st: ast.stmt) -> bool:
     """legacy-syntax conversion and validity check: idempotent, repeated inside the callee"""
     if isinstance(st, ast.If):
         t = unparse(st.test)
-        return t.startswith('not isinstance(') or t == 'not ok'
+        if t.startswith('not isinstance('):
+            return True
+        # `if not <verdict>: raise ...`
+        return isinstance(st.test, ast.UnaryOp) and isinstance(st.test.op, ast.Not) and isinstance(st.test.operand, ast.Name) and bool(st.body) and isinstance(st.body[-1], ast.Raise) and not st.orelse
     if isinstance(st, ast.Assign) and isinstance(st.value, ast.Call) and call_name(st.value) in ('check_partition', 'check_validity'):
         return True
     if isinstance(st, ast.Expr) and isinstance(st.value, ast.Constant):
